@@ -20,7 +20,10 @@ package p2pke
 //@ func (*Timer).Reset
 //@   modifies all(t)
 //@   assumeframe
-//@   ensures true
+//@   ghostvar resched = false
+//@   ensures [reschedules] t.isPending && ghost(resched)
+//@   after call (*Timer).Reset:
+//@     set resched = true
 //@
 //@ func (*Channel).setCurrent
 //@   modifies c.sessions[0], c.sessions[1]
